@@ -246,7 +246,8 @@ func runGw(c *ctx) error {
 	datrs := []string{"SF12BW125", "SF11BW125", "SF10BW125", "SF9BW125", "SF8BW125", "SF7BW125", "SF7BW250", "FSKBW500", "SF7BW999"}
 	clocks := []uint32{0, 1, 4294967295, 4293967296, 4293967295, 4293967297, 4289967296, 4289967295, 4289967297}
 	defBand, _ := band.NewBand(band.EU868Band)
-	for seq := 0; seq < nseq; seq++ {
+	stopped := 0 // sequences that ended because the forwarder no longer answered (each costs three barrier timeouts)
+	for seq := 0; seq < nseq && stopped < 3; seq++ {
 		checksOff := r.Intn(4) == 0
 		rig, err := newGwRig(dir, checksOff, 6)
 		if err != nil {
@@ -262,20 +263,50 @@ func runGw(c *ctx) error {
 		registered := map[string]bool{}
 		pulled := map[string]int{} // gateway EUI -> socket of its last complete PULL_DATA
 		nops := 10 + r.Intn(14)
-		for k := 0; k < nops; k++ {
+		// after every strict registration: a PUSH_DATA for that gateway from one IPv4 and one IPv6 source
+		// (the source-address check is exercised for every kind of registered address, not by luck)
+		type forcedPush struct {
+			eui  []byte
+			sock int
+		}
+		var forced []forcedPush
+		for k := 0; k < nops || len(forced) > 0; k++ {
 			eui := euis[r.Intn(len(euis))]
+			sock := r.Intn(len(rig.socks))
+			op := r.Intn(12)
+			isForced := false
+			if len(forced) > 0 {
+				eui, sock, op, isForced = forced[0].eui, forced[0].sock, 3, true
+				forced = forced[1:]
+			}
 			var e protocol.EUI
 			copy(e.Octets[:], eui)
-			sock := r.Intn(len(rig.socks))
-			switch op := r.Intn(12); {
+			switch {
 			case op < 2: // register / update
 				ip := fmt.Sprintf("127.0.0.%d", 1+r.Intn(4))
-				if r.Intn(4) == 0 {
+				if r.Intn(3) == 0 {
 					ip = []string{"::1", "2001:db8::1234", "fe80::1"}[r.Intn(3)]
 				}
 				strict := r.Intn(2) == 0
 				gw := model.Gateway{GatewayEUI: e, IP: net.ParseIP(ip), StrictIP: strict, Latitude: 1, Longitude: 2, Altitude: 3}
 				var err error
+				if r.Intn(4) == 0 {
+					// a registry call that must be refused (update of a gateway that is not registered,
+					// second create of one that is): the registry - and what the forwarder admits - stays as it was
+					if registered[string(eui)] {
+						err = rig.store.CreateGateway(gw)
+					} else {
+						err = rig.store.UpdateGateway(gw)
+					}
+					c.res.Count("gw.refused-registry-op")
+					if err == nil {
+						return fmt.Errorf("registry accepted a call it must refuse (eui %x registered=%v)", eui, registered[string(eui)])
+					}
+					leanReqs = append(leanReqs, "gw.refused "+hx.H(eui))
+					impl = append(impl, "ok")
+					ops = append(ops, gwOp{Op: "refused-registry-call", Lean: leanReqs[len(leanReqs)-1], Note: fmt.Sprintf("registered=%v ip=%s strict=%v", registered[string(eui)], ip, strict)})
+					continue
+				}
 				if registered[string(eui)] {
 					err = rig.store.UpdateGateway(gw)
 				} else {
@@ -285,6 +316,12 @@ func runGw(c *ctx) error {
 					return fmt.Errorf("registry op failed: %v", err)
 				}
 				registered[string(eui)] = true
+				if strict {
+					forced = append(forced, forcedPush{eui, r.Intn(6)})
+					if len(rig.socks) > 6 {
+						forced = append(forced, forcedPush{eui, 6 + r.Intn(len(rig.socks)-6)})
+					}
+				}
 				leanReqs = append(leanReqs, fmt.Sprintf("gw.reg %s %s %s", hx.H(eui), ip, b01(strict)))
 				impl = append(impl, "ok")
 				ops = append(ops, gwOp{Op: "register", Lean: leanReqs[len(leanReqs)-1]})
@@ -294,6 +331,8 @@ func runGw(c *ctx) error {
 						return err
 					}
 					delete(registered, string(eui))
+				} else {
+					rig.store.DeleteGateway(e) // refused: not registered
 				}
 				leanReqs = append(leanReqs, "gw.unreg "+hx.H(eui))
 				impl = append(impl, "ok")
@@ -305,6 +344,10 @@ func runGw(c *ctx) error {
 					tok += 1000 // the acknowledgement carries only the token: keep clear of the barrier's tokens
 				}
 				id := []byte{0, 0, 0, 0, 2, 2, 5, 1, 3, 4, byte(r.Intn(256))}[r.Intn(11)]
+				if isForced {
+					id = 0
+					c.res.Count("push-after-strict-registration")
+				}
 				d := []byte{ver, byte(tok >> 8), byte(tok), id}
 				rx := "empty"
 				if id == 0 || id == 2 {
@@ -351,13 +394,13 @@ func runGw(c *ctx) error {
 				if id != 0 && id != 2 && r.Intn(2) == 0 {
 					d = append(d, r.Bytes(r.Intn(20))...)
 				}
-				if r.Intn(15) == 0 && len(d) > 0 {
+				if !isForced && r.Intn(15) == 0 && len(d) > 0 {
 					d = d[:r.Intn(len(d))] // short header / short packet
 					if id == 0 {
 						rx = "nojson" // whatever JSON is left is cut in the middle
 					}
 				}
-				fault := id == 0 && r.Intn(8) == 0
+				fault := id == 0 && !isForced && r.Intn(8) == 0
 				if fault {
 					// the registry lookup of this datagram fails (storage error other than "not found")
 					storage.VerifGate = func(op, key string) error {
@@ -378,6 +421,7 @@ func runGw(c *ctx) error {
 					c.res.Add(hx.Finding{Kind: "propfail", Engine: "gw", Signature: "forwarder-stopped", Case: ops, Impl: "no barrier ack within 3 s after " + hx.H(d),
 						Note: "C11/C15: the forwarder stopped answering"})
 					rig.close()
+					stopped++
 					goto nextSeq
 				}
 				at := []string{}
@@ -452,6 +496,7 @@ func runGw(c *ctx) error {
 					if !ok {
 						c.res.Add(hx.Finding{Kind: "propfail", Engine: "gw", Signature: "forwarder-stopped", Case: ops, Impl: "no barrier ack after a downlink"})
 						rig.close()
+						stopped++
 						goto nextSeq
 					}
 					for _, x := range dg {
@@ -512,7 +557,7 @@ func runGw(c *ctx) error {
 		rig.close()
 	nextSeq:
 	}
-	c.res.Rule = "sequences of 10..23 operations against a real GenericPacketForwarder on loopback UDP (6 client sockets on 127.0.0.1-4): register/update/delete gateways (strict or not, 4 addresses), PUSH_DATA with 0..5 rxpk entries (valid/invalid base64, boundary clocks, all channels), PULL_DATA, TX_ACK, server-bound ids, unknown ids, short packets, truncated/overflowing/foreign JSON, downlinks (boundary clocks, delays 0/1/2/5/255); both settings of DisableGatewayChecks; a class is (operation, switch, shape of the answer)"
+	c.res.Rule = "sequences of 10..23 operations against a real GenericPacketForwarder on loopback UDP (6 client sockets on 127.0.0.1-4, 2 on ::1): register/update/delete gateways (strict or not, IPv4 and IPv6 addresses; registry calls the store must refuse; after every strict registration a PUSH_DATA for that gateway from an IPv4 and an IPv6 socket), PUSH_DATA with 0..5 rxpk entries (valid/invalid base64, boundary clocks, all channels), PULL_DATA, TX_ACK, server-bound ids, unknown ids, short packets, truncated/overflowing/foreign JSON, downlinks (boundary clocks, delays 0/1/2/5/255); both settings of DisableGatewayChecks; a class is (operation, switch, shape of the answer)"
 	return nil
 }
 
